@@ -42,6 +42,7 @@ partial def loop (h : IO.FS.Stream) (out : IO.FS.Stream) (st : DriverState) : IO
   let l := if line.endsWith "\n" then (line.dropEnd 1).toString else line
   let (st', ans) := stepLine st l
   out.putStrLn ans
+  out.flush
   loop h out st'
 
 def main : IO Unit := do
